@@ -64,6 +64,33 @@ type network struct {
 	delivered int64
 	closed    int32
 	wg        sync.WaitGroup
+	// the next snapDown[addr] snapshot connections to addr are refused (the snapshot
+	// port of a host that just came up is not reachable yet);
+	// snapRefused counts the refusals
+	snapDown    map[string]int
+	snapRefused int64
+}
+
+// refuseSnapshotsTo makes the next k attempts to open a snapshot connection to
+// addr fail; raft messages are not affected.
+func (n *network) refuseSnapshotsTo(addr string, k int) {
+	n.mu.Lock()
+	if n.snapDown == nil {
+		n.snapDown = map[string]int{}
+	}
+	n.snapDown[addr] = k
+	n.mu.Unlock()
+}
+
+func (n *network) snapshotsRefused(addr string) bool {
+	n.mu.Lock()
+	defer n.mu.Unlock()
+	if n.snapDown[addr] > 0 {
+		n.snapDown[addr]--
+		n.snapRefused++
+		return true
+	}
+	return false
 }
 
 func newNetwork(seed uint64) *network {
@@ -173,6 +200,9 @@ func (t *netTransport) GetConnection(ctx context.Context, target string) (raftio
 	return &netConn{t: t, target: target}, nil
 }
 func (t *netTransport) GetSnapshotConnection(ctx context.Context, target string) (raftio.ISnapshotConnection, error) {
+	if t.net.snapshotsRefused(target) {
+		return nil, errUnreachable
+	}
 	if _, ok := t.net.reachable(t.addr, target); !ok {
 		return nil, errUnreachable
 	}
